@@ -3,6 +3,7 @@
 //! FFT64Ref, FFT64Avx, NTT120Ref, NTT120Avx; opcode 100000 + op; outputs = FFT64Ref's outputs + [eq flags].
 //! Records whose operands only exist in the i128 big accumulators of the NTT120 family (opcode 200000 + op) run on
 //! NTT120Ref and NTT120Avx; outputs = NTT120Ref's outputs + [eq flag].
+//! Large-ring-degree records (opcode 400000 + op, N = 2^13..2^16): equality flags only.
 //! Sampling records (opcode 300000 + k): one sampler call on the four backends from the same seed; outputs =
 //! [result equal to FFT64Ref's (x3), random stream position afterwards equal (x3)] -- the sampled values themselves are
 //! not modelled (the stream is an input), the statement "sampling consumes the random stream identically" is.
@@ -59,6 +60,15 @@ fn sample(k: i64, be: i128, p: &[i128]) -> (Vec<i128>, Vec<i128>) {
 }
 
 pub fn exec(r: &Rec) -> Out {
+    if r.code >= 400000 {
+        // large ring degrees: equality flags only (no model prediction of the values)
+        let c = r.code - 400000;
+        let outs: Vec<Out> = (1..=4i128).map(|be| { let mut ps = r.ps.clone(); ps[0] = be; base_exec(&Rec::new(c, ps, r.vs.clone())) }).collect();
+        return match &outs[0] {
+            Ok(o1) => Ok(vec![(1..4).map(|i| match &outs[i] { Ok(x) => (x == o1) as i128, Err(_) => 0 }).collect()]),
+            Err(e) => if outs.iter().all(|x| x.is_err()) { Err(e.clone()) } else { Ok(vec![vec![0, 0, 0]]) },
+        };
+    }
     if r.code >= 300000 {
         let (k, p) = (r.code - 300000, r.ps.clone());
         return guard(move || {
@@ -113,6 +123,11 @@ pub fn generate(tier: &str, seed: u64) -> Vec<Rec> {
     let fam8 = c08::generate(tier, seed.wrapping_add(8)).into_iter().filter(|r| (8201..8300).contains(&r.code) && r.ps[0] >= 3);
     let fam9 = c09::generate(tier, seed.wrapping_add(9)).into_iter().filter(|r| (9100..9200).contains(&r.code) && r.ps[16] != 0);
     out.extend(fam8.chain(fam9).map(|r| { let mut ps = r.ps.clone(); ps[0] = 3; Rec::new(200000 + r.code, ps, r.vs) }));
+    {
+        let mut big = Vec::new();
+        c09::generate_large(tier, &mut Rng::new(seed ^ 0xB16), &mut big);
+        out.extend(big.into_iter().map(|r| Rec::new(400000 + r.code, r.ps, r.vs)));
+    }
     // samplers: same seed on every backend; tight admissible bounds make the rejection loop run
     let mut rng = Rng::new(seed ^ 0x5A);
     let reps = if tier == "thorough" { 1200 } else { 300 };
